@@ -1,5 +1,6 @@
 import json
 import os
+from concurrent.futures import ThreadPoolExecutor
 
 import vlib
 from check import Prop
@@ -8,7 +9,9 @@ from check import Prop
 class C03(Prop):
     pid = "C03"
     check_mod = "C03"
-    drivers = [dict(pkg="internal/core", test="TestVerifC03", timeout=600)]
+    drivers = [dict(pkg="internal/core", test="TestVerifC03", timeout=600),
+               # end to end: real protocol clients against a running Core; its own case count (attempts)
+               dict(pkg="internal/core", test="TestVerifC03E2E", timeout=600, e2e=True)]
     n_quick = 300
     n_thorough = 12000
     shard = 100
@@ -24,11 +27,26 @@ class C03(Prop):
             "hot change / cold change / removal / static shadowing), malformed flows (other name, no or stale "
             "ConfToCompare), single readers / publishers / describes, SkipAuth outside a flow, right and wrong "
             "credentials, names that are static, regexp-served, unconfigured, invalid. n = number of histories. "
-            "Non-trivial = a history with a completed flow, an attachment or an authentication refusal")
+            "Non-trivial = a history with a completed flow, an attachment or an authentication refusal. "
+            "END TO END (second driver, n/4 attempts, at least 70): a real Core with all protocol servers on scratch ports "
+            "and a fixed-shape permission matrix (publish-only, read-only, one-path, regexp, exact-nested, one-IP users, an "
+            "`any` user for one path; static paths, two regexp paths with a capture group, all_others); real clients - RTSP "
+            "(raw ANNOUNCE/SETUP/RECORD and DESCRIBE/SETUP/PLAY; Basic pre-emptive, 401 challenge answered with Digest or "
+            "Basic), RTMP (gortmplib, user/pass in the query), HLS (GET of the multivariant playlist; Basic, Bearer user:pass, "
+            "query parameters that are not credentials, X-Forwarded-For from an untrusted peer), WebRTC (raw WHEP POST; WHIP "
+            "through the repo's client with ICE/DTLS), SRT (gosrt, both stream-id syntaxes, MPEG-TS) - stratified over "
+            "protocol x action x credential class (right / wrong path / wrong action / wrong password / none / wrong IP) "
+            "with name variants (percent-encoded, %2F, trailing slash, query that looks like a path, nested, dot segments, "
+            "case), plus publisher flows with a configuration reload (changing / not changing the path) between "
+            "authorization and attachment and RTSP SETUP URLs naming another path than ANNOUNCE. Observed: whether the "
+            "path manager's listing shows the client's session as source / reader, and of which path")
     trusted_base = ["Coq 8.16.1 kernel + VM",
                     "translator tools/gen/authflows (syntactic: go/ast without types; its pinned tables - four exempt "
                     "internal sites, one name equivalence resting on gortsplib - are repeated in Props/C03.v)",
-                    "in-package driver zz_verif_c03_test.go",
+                    "in-package drivers zz_verif_c03_test.go and zz_verif_c03e_test.go (end to end: the rule giving, per "
+                    "protocol, the name / credentials / source address a request designates is the driver's: decoded URL "
+                    "path for RTSP/RTMP/WebRTC, dot-segment-normalised directory for HLS, verbatim resource for SRT)",
+                    "client libraries gortsplib (base/conn/auth), gortmplib, gosrt, pion, internal/protocols/whip",
                     "oracle: auth.Manager.Authenticate, asked directly by the driver for every (action, name, "
                     "credentials, ip) used (the manager itself is C01's subject)",
                     "oracle: regexp FindStringSubmatch per (regexp key, name)",
@@ -40,7 +58,12 @@ class C03(Prop):
                    "the go/ast pass follows values through struct fields, keyed literals and parameters inside one package, "
                    "by field NAME; it does not see reassignments through pointers or reflection",
                    "gortsplib: ServerSession.Path() is the path of the ANNOUNCE request (RTSP publisher flow)",
-                   "what each server puts into Name / Credentials / IP (URL parsing, header parsing) is not modelled"]
+                   "what each server puts into Name / Credentials / IP (URL parsing, header parsing) is not modelled; it is "
+                   "sampled end to end (RTSP, RTMP, HLS, WebRTC, SRT on plain TCP/UDP; not RTSPS/RTMPS, MoQ, RTSP over "
+                   "UDP/HTTP tunnel, JWT / HTTP authentication)",
+                   "end to end, `admitted` is read from the API listings (session found by remote address + creation time, "
+                   "or by the WHIP/WHEP ID header) and the path manager's path list; a session that attaches and detaches "
+                   "within the 40 ms polling period is missed"]
     manifest = dict(
         text="Coq theorems over a Gallina transliteration of the path manager's FindPathConf / Describe / AddReader / "
              "AddPublisher (any authentication oracle, any regexp oracle, any configuration history): an attachment without "
@@ -50,14 +73,52 @@ class C03(Prop):
              "against (false without ConfToCompare, without the same name, or with a mismatched Publish flag: witnesses "
              "proved). A go/ast pass regenerates, on every run, the table of all call sites in the servers; Coq checks that "
              "each is a well-formed flow or one of four pinned internal sites, so the flow theorem applies to every "
-             "protocol server. Tied to the code by histories on a real pathManager + real auth.Manager compared inside Coq.",
+             "protocol server. Tied to the code by histories on a real pathManager + real auth.Manager compared inside Coq, "
+             "and by end-to-end attempts of real RTSP / RTMP / HLS / WebRTC / SRT clients against a running Core whose "
+             "admissions are judged in Coq against the authentication manager asked directly (admitted => the manager admits "
+             "the action on the very path the client was attached to, that path is the one the request named, and no "
+             "configuration change slipped between authorization and attachment).",
         note="PARTIAL. Trusted: Coq kernel+VM, the syntactic go/ast translator and its pinned exemptions (HLS muxer, HLS CDN "
-             "secret, rpicamera secondary, static-source forwarder), the driver, the oracles. Not covered: the protocol "
-             "front ends (how Name, credentials and IP are extracted from RTSP/RTMP/SRT/WebRTC/HLS/MoQ requests), "
-             "end-to-end clients, the authentication manager's own logic (C01), media delivered by HLS muxers to sessions "
-             "after the session's own check.",
+             "secret, rpicamera secondary, static-source forwarder), the drivers, the oracles. The protocol front ends "
+             "(how Name, credentials and IP are extracted from the wire) are sampled end to end, not proved; not covered: "
+             "MoQ, TLS variants, RTSP over UDP / tunnels, JWT and HTTP authentication back ends, the authentication "
+             "manager's own logic (C01), media delivered by HLS muxers to sessions after the session's own check.",
         technique="Coq proof (case analysis per call, lifted to traces and flows) + translator (go/ast -> Gallina flow table, "
-                  "vm_compute) + real-pathManager correspondence")
+                  "vm_compute) + real-pathManager correspondence + end-to-end protocol clients against a real Core")
+
+    @staticmethod
+    def e2e_n(n):
+        return min(1200, max(70, n // 4))
+
+    def run_drivers(self, ctx, n, seed, replay=None):
+        """Both drivers at the same time (the end-to-end one mostly waits for the servers' anti-brute-force pauses)."""
+        def one(kd):
+            k, d = kd
+            nk = self.e2e_n(n) if d.get("e2e") else n
+            outp = os.path.join(ctx.workdir, "driver_%d_%d.jsonl" % (k, nk))
+            if os.path.exists(outp):
+                os.remove(outp)
+            wd = vlib.ensure_dir(os.path.join(ctx.workdir, "drv%d" % k))
+            env = {"VERIF_SEED": seed, "VERIF_N": nk, "VERIF_OUT": outp, "VERIF_TIER": ctx.tier, "VERIF_WORK": wd}
+            if replay:
+                env["VERIF_REPLAY"] = replay
+            rc, out = vlib.run_driver(wd, d["pkg"], d["test"], env, timeout=d.get("timeout", 900))
+            return d, rc, out, vlib.read_jsonl(outp)
+
+        with ThreadPoolExecutor(max_workers=len(self.drivers)) as ex:
+            results = list(ex.map(one, enumerate(self.drivers)))
+        cases, summaries, errors = [], [], []
+        for d, rc, out, rows in results:
+            for r in rows:
+                if "summary" in r:
+                    summaries.append(r["summary"])
+                else:
+                    r["driver"] = d["test"]
+                    r["id"] = len(cases)
+                    cases.append(r)
+            if rc != 0:
+                errors.append("driver %s failed (rc=%d):\n%s" % (d["test"], rc, out[-6000:]))
+        return cases, summaries, errors
 
     def generate(self, ctx):
         out = os.path.join(vlib.COQ, "gen", "C03_Flows.v")
